@@ -1,3 +1,6 @@
+-- one transaction: an interrupted upgrade rolls back and can be retried
+BEGIN;
+
 CREATE TABLE `client_versions`
 (
  `app_id` VARCHAR,
@@ -13,3 +16,5 @@ CREATE INDEX `client_versions_appid_time_idx` on `client_versions` (`app_id`, `c
 
 DELETE FROM `version`;
 INSERT INTO `version` (`version`) VALUES (2);
+
+COMMIT;
